@@ -447,17 +447,17 @@ def run(ctx):
                 line = conn.read_line(timeout=3) or b""
                 path = "/" + line.split(b"/", 3)[-1].decode("latin-1").strip() if line.count(b"/") >= 3 else "/"
                 if path == "/stall":
-                    time.sleep(3.0)
+                    time.sleep(2.4)
                     return
                 if path == "/reset":
                     conn.send(b"20 text/plain\r\npartial")
-                    time.sleep(0.1)
+                    time.sleep(0.2)
                     conn.reset()
                     return
                 data = ups.get(path, b"51 unknown\r\n")
                 if path.startswith("/slow"):
                     conn.send(data[: len(data) // 2])
-                    time.sleep(0.25)
+                    time.sleep(0.45)
                     conn.send(data[len(data) // 2:])
                 elif path == "/late-header":
                     time.sleep(0.2)
@@ -469,13 +469,16 @@ def run(ctx):
             srv6, _ = world.server(cfg, timeout=2.0)
             with srv6:
                 world.upstream_script["fn"] = fn
-                combos = [("/slow", "/fast"), ("/slow", "/stall"), ("/slow-text", "/reset"), ("/late-header", "/fast"), ("/slow", "/slow-text", "/fast"), ("/slow", "/fast", "/fast", "/stall")]
+                # (orders matter: the request that connects upstream FIRST and finishes while a later one is still
+                # receiving is the dangerous neighbour - so medium-then-slow pairs, not only slow-then-fast)
+                combos = [("/slow", "/fast"), ("/late-header", "/slow"), ("/late-header", "/slow-text"), ("/slow", "/stall"), ("/reset", "/slow-text"), ("/slow-text", "/reset"),
+                          ("/late-header", "/fast"), ("/late-header", "/slow", "/slow-text"), ("/fast", "/late-header", "/slow", "/stall")]
                 for rep in range(ctx.pick(1, 6)):
                     for combo in combos:
                         out = {}
 
                         def one(idx, path):
-                            time.sleep(0.03 * idx)
+                            time.sleep(0.05 * idx)
                             out[idx] = live.fetch_raw(srv6.port, f"gemini://127.0.0.1:{srv6.port}{path}\r\n".encode(), timeout=15)
 
                         ths = [threading.Thread(target=one, args=(i, p)) for i, p in enumerate(combo)]
